@@ -18,6 +18,9 @@ def sweep_plans(base, rng, tier):
         "three4": [8364, 26085, 26412, 12354], "three6": [8364] * 6, "three15": [26085] * 15, "three16": [26085] * 16,
         "astral1": [128512], "astral4": [128512, 97, 66560, 120120], "astral7": [128512] * 7, "astral8": [128512] * 8, "astral9": [97] + [128512] * 8,
         "mixed": [97, 233, 8364, 128512, 98, 1046, 26085, 66560, 99], "mixedlong": [97, 233, 8364, 128512] * 12,
+        # supplementary planes whose high surrogate is not D8xx (planes 5..16), alone and straddling the 15-unit cut
+        "plane5": [0x50000], "plane16": [0x10ffff], "cut14_plane5": [65 + i for i in range(14)] + [0x50000], "cut14_plane16": [65 + i for i in range(14)] + [0x10ffff],
+        "cut13_plane16": [65 + i for i in range(13)] + [0x10ffff, 66], "plane9x8": [0x90000] * 8, "plane1_cut14": [65 + i for i in range(14)] + [0x1f600],
     }
     plans = []
     k = 0
